@@ -111,6 +111,8 @@ func (o *CmdOutcome) Describe() string {
 		return "child killed by the watchdog"
 	case o.Crashed:
 		return "child process died: " + clip(o.Stderr, 1500)
+	case o.StepCap:
+		return fmt.Sprintf("step cap reached after %d scheduling steps", o.Steps)
 	case o.Deadlock:
 		return "deadlock: " + strings.Join(o.Blocked, "\n")
 	case o.Panic != "":
